@@ -34,6 +34,7 @@ type File struct {
 	Garbage    bool   `json:"garbage,omitempty"`
 	Imports    []int  `json:"imports,omitempty"`
 	VarMarks   int    `json:"var_marks"`
+	Stmts      int    `json:"stmts,omitempty"` // top-level statements with blocks of their own (for, if with init, range, switch), after the variables
 	InitFuncs  int    `json:"init_funcs"`
 	ExtraNative bool  `json:"extra_native,omitempty"` // imports a bundled native package too
 	Unsupported bool  `json:"unsupported,omitempty"`  // (excluded files) body uses Go syntax outside goatlang's grammar
@@ -159,7 +160,7 @@ func genCase(rt *rapid.T) *Case {
 		nf := rx.Range(rt, "nfiles", 1, 4)
 		names := rapid.Permutation(fileNames).Draw(rt, "fnames")[:nf]
 		for k, fname := range names {
-			f := File{Name: fname, VarMarks: rx.Range(rt, "vm", 0, 3), InitFuncs: rx.Range(rt, "if", 0, 2)}
+			f := File{Name: fname, VarMarks: rx.Range(rt, "vm", 0, 3), InitFuncs: rx.Range(rt, "if", 0, 2), Stmts: rx.Pick(rt, "stmts", 0, 0, 0, 1, 2, 3)}
 			switch rx.Uniform(rt, 8, "header") {
 			case 0:
 				f.Header = "//go:build " + genConstraint(rt, true, 0) + "\n\n"
@@ -254,6 +255,20 @@ func (c *Case) files() map[string]string {
 			for k := 0; k < f.VarMarks; k++ {
 				fmt.Fprintf(&sb, "var _ = mark%d(%q)\n", fi, c.mark(pi, f.Name, "var", k))
 			}
+			for k := 0; k < f.Stmts; k++ {
+				// script dialect: a package may have statements at top level; they run with the variable initialisers, in source order
+				m := c.mark(pi, f.Name, "stmt", k)
+				switch (k + fi + pi) % 4 {
+				case 0:
+					fmt.Fprintf(&sb, "for i%d := 0; i%d < 1; i%d++ {\n\tmark%d(%q)\n}\n", k, k, k, fi, m)
+				case 1:
+					fmt.Fprintf(&sb, "if x%d := 1; x%d > 0 {\n\tmark%d(%q)\n}\n", k, k, fi, m)
+				case 2:
+					fmt.Fprintf(&sb, "for _, s%d := range []string{%q} {\n\tmark%d(s%d)\n}\n", k, m, fi, k)
+				default:
+					fmt.Fprintf(&sb, "switch {\ncase true:\n\tw%d := %q\n\tmark%d(w%d)\n}\n", k, m, fi, k)
+				}
+			}
 			for k := 0; k < f.InitFuncs; k++ {
 				fmt.Fprintf(&sb, "func init() {\n\tmark%d(%q)\n}\n", fi, c.mark(pi, f.Name, "init", k))
 			}
@@ -316,6 +331,19 @@ func (c *Case) validate(stdout string) string {
 		for _, f := range files {
 			for k := 0; k < f.VarMarks; k++ {
 				m := c.mark(pi, f.Name, "var", k)
+				if f.Ignored || !reach[pi] {
+					if _, ok := pos[m]; ok {
+						if f.Ignored {
+							return fmt.Sprintf("marker %q comes from a file that must be ignored (%s)", m, f.Name)
+						}
+						return fmt.Sprintf("marker %q comes from package %s, which is not imported (transitively) by the loaded package", m, p.Path)
+					}
+					continue
+				}
+				order = append(order, m)
+			}
+			for k := 0; k < f.Stmts; k++ {
+				m := c.mark(pi, f.Name, "stmt", k)
 				if f.Ignored || !reach[pi] {
 					if _, ok := pos[m]; ok {
 						if f.Ignored {
